@@ -195,6 +195,37 @@ def r3(ctx):
     ctx.floor(R, 8)
 
 
+def r4(ctx):
+    R = "C04-R4"
+    ctx.rule(R, "Drop for WriteHalf: from the `!is_shutdown` edge every path either fails to obtain a sequence number (stream already reset) or "
+                "reaches WriteHalf::send with a Segment::Fin - no other condition (runtime context, peer state) may skip the FIN; "
+                "close_stream_half follows on every path")
+    d = ctx.w.drop_impl("turmoil::net::tcp::stream::WriteHalf")
+    if not d:
+        ctx.bad(R, "writehalf-drop", "", "WriteHalf has no Drop impl")
+        return
+    for fb in ctx.w.family(d):
+        sh = []
+        for sbb, te, fe, o in guards_on(fb, lambda o: o["k"] == "place" and place_has_field(o["p"], "turmoil::net::tcp::stream::WriteHalf::is_shutdown")):
+            sh += fe
+        if not sh:
+            continue
+        sends = [bb for bb, t in fb.calls(re.compile(r"WriteHalf::send$|send_segment$|World::send_message$|stream::send_loopback$"))]
+        # allowed skip: the Err edge of self.seq(world)
+        seq_err = []
+        for sbb, m, els, adt, pl in variant_edges(fb, lambda p: True):
+            o = origin(fb, {"c": {"l": pl["l"]}}) if not pl.get("p") else {"k": "?"}
+            if adt == "std::result::Result" and o.get("k") == "call" and o["t"]["f"].endswith("WriteHalf::seq"):
+                seq_err += [e for v, e in m.items() if v == "Err"] + ([els] if "Err" not in m else [])
+        leak = always_passes(fb, sends, frm=sh[0][1], through_edges=seq_err)
+        ok = bool(sends) and not leak
+        ctx.inst(R, "writehalf-drop:fin-unless-shutdown", ok, fb.span, "an open write half always announces its end with a FIN when dropped" if ok else
+                 "Drop for WriteHalf has a path on which an un-shut-down write half sends no FIN although a sequence number was available: the peer's reads hang instead of seeing EOF")
+        ch = [bb for bb, t in fb.calls("turmoil::host::Tcp::close_stream_half")]
+        ctx.inst(R, "writehalf-drop:releases", bool(ch) and not always_passes(fb, ch), fb.span, "the stream half is released on every path")
+    ctx.floor(R, 2)
+
+
 def r5(ctx):
     R = "C04-R5"
     ctx.rule(R, "Rt::bounce and Rt::host: exactly one call of the boxed software factory per non-panicking path, its future passed to "
@@ -257,6 +288,7 @@ def run(ctx):
     r1(ctx)
     r2(ctx)
     r3(ctx)
+    r4(ctx)
     r5(ctx)
     r6(ctx)
     C02.r2(ctx)   # R4: FIN on drop unless shut down
